@@ -288,13 +288,13 @@ mod v_wire_cksum {
         equiv::<15>(12);
     }
 
-    // @harness props=C08 cfg=KW tier=t to=2400 mem=8 unwind=12 opts=nomem covers=2 funcs=wire::checksum::data bounds=length_0..=16;_start_offset_0..=3;_all_contents
+    // @harness props=C08 cfg=KW tier=t to=1200 mem=8 unwind=12 opts=nomem covers=2 funcs=wire::checksum::data bounds=length_0..=16;_start_offset_0..=3;_all_contents
     #[kani::proof]
     pub(crate) fn cksum_equiv_16() {
         equiv::<19>(16);
     }
 
-    // @harness props=C08 cfg=KW tier=t to=3600 mem=8 unwind=14 opts=nomem covers=2 funcs=wire::checksum::data bounds=length_0..=20;_start_offset_0..=3;_all_contents
+    // @harness props=C08 cfg=KW tier=t to=1200 mem=8 unwind=14 opts=nomem covers=2 funcs=wire::checksum::data bounds=length_0..=20;_start_offset_0..=3;_all_contents
     #[kani::proof]
     pub(crate) fn cksum_equiv_20() {
         equiv::<23>(20);
@@ -611,7 +611,7 @@ mod v_wire_cksum {
     }
 
     // thorough: every Ipv4Repr field at once (6 words)
-    // @harness props=C08 cfg=KW tier=t to=3600 mem=8 unwind=8 opts=nomem covers=1 funcs=wire::Ipv4Repr::emit;wire::Ipv4Packet::fill_checksum bounds=every_Ipv4Repr_field_symbolic_(addresses,_protocol,_hop_limit,_payload_length_0..=65515):_6_words
+    // @harness props=C08 cfg=KW tier=t to=1200 mem=8 unwind=8 opts=nomem covers=1 funcs=wire::Ipv4Repr::emit;wire::Ipv4Packet::fill_checksum bounds=every_Ipv4Repr_field_symbolic_(addresses,_protocol,_hop_limit,_payload_length_0..=65515):_6_words
     #[kani::proof]
     pub(crate) fn emit_valid_ipv4_full() {
         emit_valid_ipv4(0xfff);
@@ -815,19 +815,19 @@ mod v_wire_cksum {
 
     // ---- thorough tier: every field of a small packet symbolic at once (probe 10c style)
 
-    // @harness props=C08 cfg=KW tier=t to=1800 mem=8 unwind=8 opts=nomem covers=1 funcs=wire::UdpRepr::emit;wire::UdpPacket::fill_checksum bounds=both_IPv4_addresses,_both_ports_and_4_payload_bytes_symbolic_(8_words)
+    // @harness props=C08 cfg=KW tier=t to=1200 mem=8 unwind=8 opts=nomem covers=1 funcs=wire::UdpRepr::emit;wire::UdpPacket::fill_checksum bounds=both_IPv4_addresses,_both_ports_and_4_payload_bytes_symbolic_(8_words)
     #[kani::proof]
     pub(crate) fn emit_valid_udp4_full() {
         emit_valid_udp(false, 0xf, 0xf, 0xf, 0x0f, 4, false);
     }
 
-    // @harness props=C08 cfg=KW tier=t to=1800 mem=8 unwind=8 opts=nomem covers=1 funcs=wire::Icmpv4Repr::emit;wire::Icmpv4Packet::fill_checksum bounds=echo_request/reply,_ident,_seq_and_8_data_bytes_symbolic_(6_words)
+    // @harness props=C08 cfg=KW tier=t to=1200 mem=8 unwind=8 opts=nomem covers=1 funcs=wire::Icmpv4Repr::emit;wire::Icmpv4Packet::fill_checksum bounds=echo_request/reply,_ident,_seq_and_8_data_bytes_symbolic_(6_words)
     #[kani::proof]
     pub(crate) fn emit_valid_icmpv4_full() {
         emit_valid_echo(false, 0, 0, 0xf, 0xff, 8, false);
     }
 
-    // @harness props=C08 cfg=KW tier=t to=1800 mem=8 unwind=8 opts=nomem covers=1 funcs=wire::TcpRepr::emit;wire::TcpPacket::fill_checksum bounds=no_options,_fixed_IPv4_addresses;_ports,_seq,_ack,_window,_control_flag,_ACK_presence_and_4_payload_bytes_symbolic_(9_words)
+    // @harness props=C08 cfg=KW tier=t to=1200 mem=8 unwind=8 opts=nomem covers=1 funcs=wire::TcpRepr::emit;wire::TcpPacket::fill_checksum bounds=no_options,_fixed_IPv4_addresses;_ports,_seq,_ack,_window,_control_flag,_ACK_presence_and_4_payload_bytes_symbolic_(9_words)
     #[kani::proof]
     pub(crate) fn emit_valid_tcp4_full() {
         emit_valid_tcp(false, 0, 0, 0x3fff, 0, 0x0f, 0, true, 4, false);
@@ -992,7 +992,10 @@ mod v_wire_cksum {
         }
         let field = be16(seg[cks], seg[cks + 1]);
         let (ok, strict, lax) = match proto {
-            1 => (ref_echo_ok(v6, &src, &dst, seg), echo_parse_ok(v6, &src, &dst, seg, &caps), echo_parse_ok(v6, &src, &dst, seg, &lax_caps)),
+            1 => {
+                let strict = echo_parse_ok(v6, &src, &dst, seg, &caps);
+                (ref_echo_ok(v6, &src, &dst, seg), strict, if with_lax { echo_parse_ok(v6, &src, &dst, seg, &lax_caps) } else { strict })
+            }
             17 => {
                 // the 'no checksum' value: allowed over IPv4 (checked here), forbidden over IPv6
                 // (obligation of `udp6_zero_checksum_rejected`, excluded here so that one defect
@@ -1114,14 +1117,14 @@ mod v_wire_cksum {
     }
 
     // thorough: two free corruption positions over a 24-byte TCP segment (quick tier: no answer in 600 s)
-    // @harness props=C08 cfg=KW tier=t to=1800 mem=8 unwind=8 opts=nomem covers=2 funcs=wire::TcpRepr::parse;wire::TcpPacket::verify_checksum bounds=emitted_segment_(source_port_symbolic,_no_options,_4_payload_bytes);_non-zero_XOR_mask_on_1_or_2_bytes_at_symbolic_positions_0..24_except_12,_13
+    // @harness props=C08 cfg=KW tier=t to=1200 mem=8 unwind=8 opts=nomem covers=2 funcs=wire::TcpRepr::parse;wire::TcpPacket::verify_checksum bounds=emitted_segment_(source_port_symbolic,_no_options,_4_payload_bytes);_non-zero_XOR_mask_on_1_or_2_bytes_at_symbolic_positions_0..24_except_12,_13
     #[kani::proof]
     pub(crate) fn reject_invalid_tcp4_anypair() {
         rx_l4x(6, false, 0, 0, 0x3, false, upto(24) & !(3 << 12), upto(24) & !(3 << 12), 4);
     }
 
     // thorough: ICMPv6 with the type byte corruptible, through the real `parse` (every NDISC / MLD parser is explored)
-    // @harness props=C08 cfg=KW tier=t to=1800 mem=16 unwind=8 opts=nomem covers=2 funcs=wire::Icmpv6Repr::parse;wire::Icmpv6Packet::verify_checksum;wire::NdiscRepr::parse;wire::MldRepr::parse bounds=emitted_echo_request_(ident_symbolic,_4_data_bytes);_non-zero_XOR_mask_on_1_or_2_of_the_bytes_0_(type),_1_(code),_2,_3_(checksum_field);_only_accepted-implies-verifies_is_asserted
+    // @harness props=C08 cfg=KW tier=t to=1200 mem=16 unwind=8 opts=nomem covers=2 funcs=wire::Icmpv6Repr::parse;wire::Icmpv6Packet::verify_checksum;wire::NdiscRepr::parse;wire::MldRepr::parse bounds=emitted_echo_request_(ident_symbolic,_4_data_bytes);_non-zero_XOR_mask_on_1_or_2_of_the_bytes_0_(type),_1_(code),_2,_3_(checksum_field);_only_accepted-implies-verifies_is_asserted
     #[kani::proof]
     pub(crate) fn reject_invalid_icmpv6_anytype() {
         rx_l4_nolax(1, true, 0, 0, 0x3, 0xf, 0xf, 4);
